@@ -31,7 +31,12 @@ def written_magnitude(text):
 
 
 def run(ctx):
-    env = kit.Env(ctx, need_oracle=False)
+    # the last shard imports only a subset of the unit modules: symbol resolution depends on the whole table
+    subset = None
+    if ctx.nshards > 1 and ctx.shard == ctx.nshards - 1:
+        subset = ctx.rng.choice([["si"], ["si", "iec"], ["si", "us"], ["si", "energy", "natural"]])
+        ctx.count("shards_with_module_subset")
+    env = kit.Env(ctx, need_oracle=False, modules=subset or "all")
     m, rng = env.m, ctx.rng
     Unit, Quantity, Prefix, Dimension = m.Unit, m.Quantity, m.Prefix, m.Dimension
     from measured.parsing import ParseError
